@@ -3,6 +3,7 @@
    ring_theory, no axioms) on top of the shared network semantics Base/TN.v. *)
 From Coq Require Import Arith List Lia Ring PeanoNat Permutation.
 From QV Require Import Base.Sums Base.TN.
+From QV Require C06.Model.
 Import ListNotations.
 
 Section Gate.
@@ -524,5 +525,60 @@ Section Gate.
     - intros i Hi Hin. apply in_app_or in Hin. destruct Hin as [Hin|Hin].
       + destruct (Hfu i Hin) as [_ [Hn _]]. exact (Hn Hi).
       + exact (Hlo i Hi Hin).
+  Qed.
+
+  (* ---- the (transpose, dagger) options -----------------------------------------------
+     K carries an arbitrary map `kconj` (conjugation; no property of it is needed).
+     The gate tensor is built exactly as the code does (C06/Model.v gate_opts): dagger
+     conjugates the array and forces the transposed wiring, whatever `transpose` says. *)
+  Variable kconj : K -> K.
+  Definition gconj (g : gfun) : gfun := fun o n => kconj (g o n).
+
+  Definition opt_gate_tensor (transpose dagger : bool) (g : gfun) (inds bnds : list ind) : tensor :=
+    gate_tensor (snd (Model.gate_opts transpose dagger))
+                (if fst (Model.gate_opts transpose dagger) then gconj g else g) inds bnds.
+
+  (* the operator that must be applied: G, G^T, G^dagger, G^dagger *)
+  Definition eff_entry (transpose dagger : bool) (g : gfun) (o n : list nat) : K :=
+    if dagger then kconj (g n o) else if transpose then g n o else g o n.
+
+  Theorem gate_options_sound tr dg g ts inds bnds summed s :
+    Forall wf ts -> NoDup bnds -> length inds = length bnds ->
+    (forall b, In b bnds -> ~ In b inds /\ ~ In b summed /\ ~ in_net ts b) ->
+    (forall i, In i inds -> ~ In i summed) ->
+    value (opt_gate_tensor tr dg g inds bnds :: map (reindex (rename inds bnds)) ts) (bnds ++ summed) s
+    = sum_vals (map dim bnds)
+        (fun beta => eff_entry tr dg g (map s inds) beta * value ts summed (upds s inds beta)).
+  Proof.
+    intros Hw Hnd Hl Hf Ho. unfold opt_gate_tensor.
+    destruct tr, dg; cbn [Model.gate_opts fst snd]; rewrite gate_lazy_sound by assumption; reflexivity.
+  Qed.
+
+  (* sandwich options: upper / lower gate tensors as the code builds them *)
+  Definition sandwich_upper (transpose dagger : bool) (g : gfun) (up bu : list ind) : tensor :=
+    let o := Model.sandwich_opts transpose dagger in
+    gate_tensor (snd o) (if fst (fst o) then gconj g else g) up bu.
+  Definition sandwich_lower (transpose dagger : bool) (g : gfun) (lo bl : list ind) : tensor :=
+    let o := Model.sandwich_opts transpose dagger in
+    gate_tensor (snd o) (if snd (fst o) then gconj g else g) lo bl.
+
+  (* what must act on the lower (bra-like) labels: conj G, G^dagger, G^T, G^T *)
+  Definition eff_lower (transpose dagger : bool) (g : gfun) (o n : list nat) : K :=
+    if dagger then g n o else if transpose then kconj (g n o) else kconj (g o n).
+
+  Theorem sandwich_options_sound tr dg g ts up lo bu bl summed s :
+    Forall wf ts -> NoDup bu -> NoDup bl -> length up = length bu -> length lo = length bl ->
+    (forall b, In b bu -> ~ In b up /\ ~ In b lo /\ ~ In b bl /\ ~ In b summed /\ ~ in_net ts b) ->
+    (forall b, In b bl -> ~ In b up /\ ~ In b lo /\ ~ In b bu /\ ~ In b summed /\ ~ in_net ts b) ->
+    (forall i, In i up -> ~ In i summed /\ ~ In i lo) -> (forall i, In i lo -> ~ In i summed) ->
+    value (sandwich_lower tr dg g lo bl
+           :: map (reindex (rename lo bl)) (sandwich_upper tr dg g up bu :: map (reindex (rename up bu)) ts))
+          (bl ++ bu ++ summed) s
+    = sum_vals (map dim bl) (fun gamma => eff_lower tr dg g (map s lo) gamma *
+        sum_vals (map dim bu) (fun beta => eff_entry tr dg g (map s up) beta *
+          value ts summed (upds (upds s lo gamma) up beta))).
+  Proof.
+    intros. unfold sandwich_upper, sandwich_lower.
+    destruct tr, dg; cbn [Model.sandwich_opts fst snd negb orb]; rewrite gate_sandwich_sound by assumption; reflexivity.
   Qed.
 End Gate.
